@@ -16,6 +16,7 @@ pub enum Src {
     Subst,
     Canary,
     Lex,
+    Unicode,
 }
 impl Src {
     pub fn name(self) -> &'static str {
@@ -29,6 +30,7 @@ impl Src {
             Src::Subst => "g_subst",
             Src::Canary => "g_canary",
             Src::Lex => "g_lex",
+            Src::Unicode => "g_unicode",
         }
     }
 }
@@ -60,7 +62,7 @@ impl StreamCfg {
     }
     pub fn describe(&self) -> String {
         format!(
-            "G-wide: all sequences of <= {} subtags over {} boundary-class tokens ({} inputs); G-narrow: <= {} over {} tokens ({}); G-langid: <= {} over {} tokens ({}); {} rendered random well-formed locales; {} near-miss mutations (1-3 edits, one third directly after the unmutated input); byte-substitution sweep (every position of {} identifiers x 256 byte values, each after its original); real-world lexicon ({} words x 20 frames, variant pairs, key x type pairs); corpus x {} suffixes: {}",
+            "G-wide: all sequences of <= {} subtags over {} boundary-class tokens ({} inputs); G-narrow: <= {} over {} tokens ({}); G-langid: <= {} over {} tokens ({}); {} rendered random well-formed locales; {} near-miss mutations (1-3 edits, one third directly after the unmutated input); byte-substitution sweep (every position of {} identifiers x 256 byte values, each after its original); Unicode sweep (the same identifiers wrapped in 16 kinds of white space / invisible characters, each character replaced by full-width forms, case-mapping look-alikes, homoglyphs, non-ASCII digits); real-world lexicon ({} words x 20 frames, variant pairs, key x type pairs); corpus x {} suffixes: {}",
             self.wide_len, gen::WIDE.len(), gen::seq_space(gen::WIDE.len(), self.wide_len),
             self.narrow_len, gen::NARROW.len(), gen::seq_space(gen::NARROW.len(), self.narrow_len),
             self.langid_len, gen::LANGID_ALPHA.len(), gen::seq_space(gen::LANGID_ALPHA.len(), self.langid_len),
@@ -196,6 +198,59 @@ pub fn byte_stream(ctx: &mut Ctx, cfg: &StreamCfg, f0: &mut dyn FnMut(&mut Ctx, 
                         mon::begin_case(&b);
                         f(ctx, &b, Src::Subst);
                     }
+                }
+                idx += 1;
+            }
+        }
+    }
+    if cfg.corpus {
+        // ASCII / Unicode confusions: every pool identifier wrapped in ASCII and non-ASCII white space and
+        // invisible characters (trim vs trim_ascii), and with each character replaced by a non-ASCII character
+        // that is "the same" under Unicode case mapping, numeric value or appearance (Kelvin sign -> k, long s
+        // -> S, dotless / dotted i, full-width forms, Cyrillic homoglyphs, Arabic-Indic and full-width digits).
+        // All of these are ill-formed; code that uses to_lowercase / is_alphabetic / is_numeric / trim where the
+        // ASCII variant is meant accepts some of them. Each follows its well-formed original.
+        const WS: &[&str] = &[" ", "\t", "\n", "\r", "\x0b", "\x0c", "\u{85}", "\u{a0}", "\u{1680}", "\u{2003}", "\u{2028}", "\u{202f}", "\u{3000}", "\u{feff}", "\u{200b}", "\0"];
+        let mut idx = 0usize;
+        for base in gen::SUBST_POOL.iter().chain(CANARIES.iter()) {
+            let mut cases: Vec<String> = vec![];
+            for w in WS {
+                cases.push(format!("{}{}", w, base));
+                cases.push(format!("{}{}", base, w));
+                cases.push(format!("{}{}{}", w, base, w));
+            }
+            let chars: Vec<char> = base.chars().collect();
+            for (i, c) in chars.iter().enumerate() {
+                let mut subs: Vec<char> = vec![];
+                if c.is_ascii_graphic() {
+                    subs.push(char::from_u32(0xFF01 + (*c as u32 - 0x21)).unwrap()); // full-width form
+                }
+                match c.to_ascii_lowercase() {
+                    'k' => subs.push('\u{212a}'),
+                    's' => subs.push('\u{17f}'),
+                    'i' => subs.extend(['\u{130}', '\u{131}']),
+                    'a' => subs.extend(['\u{430}', '\u{e5}', '\u{212b}']),
+                    'e' => subs.extend(['\u{435}', '\u{e9}']),
+                    'o' => subs.extend(['\u{43e}', '\u{3bf}']),
+                    'c' => subs.push('\u{441}'),
+                    'n' => subs.push('\u{f1}'),
+                    'u' => subs.push('\u{fc}'),
+                    '0'..='9' => subs.extend([char::from_u32(0x660 + (*c as u32 - 0x30)).unwrap(), '\u{b2}', '\u{2460}']),
+                    _ => {}
+                }
+                for sub in subs {
+                    let mut t: String = chars[..i].iter().collect();
+                    t.push(sub);
+                    t.extend(chars[i + 1..].iter());
+                    cases.push(t);
+                }
+            }
+            for cse in cases {
+                if idx % n == shard {
+                    mon::begin_case(base.as_bytes());
+                    f(ctx, base.as_bytes(), Src::Unicode);
+                    mon::begin_case(cse.as_bytes());
+                    f(ctx, cse.as_bytes(), Src::Unicode);
                 }
                 idx += 1;
             }
